@@ -156,12 +156,13 @@ theorem C17_old_argmin_nan : argminOld [.num 3, .nan, .num 1] = 1 ∧ argminNanL
   decide
 
 /-- **layer G** (decided over the generated table of every call of the regulariser): the five places in model.py that store an
-    objective evaluate `h` at the point they store, in the user's coordinates and with the user's extra arguments — the source-level
+    objective evaluate `h` at the point they store AS IT IS USED (`as_absolute_coordinates` / `xpt(k, abs_coordinates=True)`:
+    clipped to the bounds, projected), in the user's coordinates and with the user's extra arguments — the source-level
     side of `C17_obj_matches` -/
 theorem C17_src_h_at_stored_point :
     (Gen.hCalls.filter (fun c => c.func.startsWith "model.py:")).map (fun c => (c.func, c.point)) =
-      [("model.py:__init__", "x0"), ("model.py:change_point", "self.xbase + x"),
-       ("model.py:add_new_sample", "self.xbase + self.points[k, :]"), ("model.py:add_new_point", "self.xbase + x"),
+      [("model.py:__init__", "x0"), ("model.py:change_point", "self.as_absolute_coordinates(x)"),
+       ("model.py:add_new_sample", "self.xpt(k, abs_coordinates=True)"), ("model.py:add_new_point", "self.as_absolute_coordinates(x)"),
        ("model.py:save_point", "xabs")] ∧
     (∀ c ∈ Gen.hCalls, c.npos = 1 ∧ c.nkw = 0 ∧ (c.star = "self.argsh" ∨ c.star = "argsh") ∧
       ((c.point ≠ "" ∧ (c.scaling = "self.scaling_changes" ∨ c.scaling = "scaling_changes")) ∨
